@@ -391,6 +391,35 @@ def rounding_bound(S, C, O):
     return -((-worst.numerator) // (worst.denominator * 2 ** 51)) + 3
 
 
+def shallow_margin(S, C, O):
+    """Classification of strict-class coverage/length failures below 2^53.  The sweep orders edges at every scanline by
+    x rounded to integers; where an open segment crosses a closed edge at a shallow angle theta the two stay within one unit
+    of each other for about 2/sin(theta) units along the subject, and if scanlines of other vertices fall in that stretch the
+    swap is noticed in a later scanbeam and the cut is clamped to that scanbeam's boundary: still within a unit of both
+    lines, but displaced ALONG the subject by up to ~2/sin(theta).  Returns 3 + ceil(2/sin(theta_min)) over all proper
+    open x closed crossings when that exceeds the property's 3 units by itself (sin(theta_min) < 2/3), else None."""
+    from math import isqrt
+    ces = [e for p in S + C for e in cyc_edges(p)]
+    best = None       # (cross^2, |d1|^2 |d2|^2) with the smallest ratio
+    for p in O:
+        for a, b in open_edges(p):
+            for c, d in ces:
+                if not proper(a, b, c, d):
+                    continue
+                d1x, d1y, d2x, d2y = b[0] - a[0], b[1] - a[1], d[0] - c[0], d[1] - c[1]
+                cr = d1x * d2y - d1y * d2x
+                num, den = cr * cr, (d1x * d1x + d1y * d1y) * (d2x * d2x + d2y * d2y)
+                if best is None or num * best[1] < best[0] * den:
+                    best = (num, den)
+    if best is None or 9 * best[0] >= 4 * best[1]:          # sin^2 >= 4/9
+        return None
+    num, den = best
+    # ceil(2 * sqrt(den/num)) = ceil(sqrt(4 den / num))
+    q = -((-4 * den) // num)
+    r = isqrt(q)
+    return 3 + (r if r * r == q else r + 1)
+
+
 def scale_open(O, tf):
     k, dx, dy = tf
     return polys.scale_translate(O, k, dx, dy)
